@@ -1365,6 +1365,42 @@ def r16(k: Kit) -> None:
                   g.describe_path(w) if w else None)
 
 
+def r18(k: Kit) -> None:
+    """A user switch replaces all per-user state."""
+    rep = k.rep
+    rep.rule('C05.R18', 'reload_config (run for every change of the user '
+             'name) stores each per-user setting taken from the re-evaluated '
+             'options - the authentication method switches, the authorized '
+             'client keys, the session permissions - unconditionally, on '
+             'every normal path and with the option of the same name: a '
+             'value the new user\'s configuration does not set must not '
+             'leave the previous user\'s in place')
+    fi = k.func('connection.SSHServerConnection.reload_config')
+    g = k.cfg(fi)
+    n = 0
+    for fld in ('_authorized_client_keys', '_host_based_auth',
+                '_public_key_auth', '_kbdint_auth', '_password_auth',
+                '_allow_pty', '_x11_forwarding', '_agent_forwarding'):
+        sts = k.stores_to(fi, 'self.' + fld)
+        n += len(sts)
+        ids = [nd.id for nd, v in sts]
+        w = g.must_pass(ids, follow_exc=False)
+        okv = bool(sts) and all(
+            v is not None and dotted(v) == 'options.' + fld[1:]
+            for nd, v in sts)
+        rep.check(bool(sts) and w is None and okv, 'C05.R18',
+                  key(fi, f'{fld} replaced on reload'),
+                  f'self.{fld} = options.{fld[1:]} on every path',
+                  f'self.{fld} is not replaced unconditionally when the '
+                  'configuration is re-evaluated for a new user name: '
+                  '(authorized keys) with `Match User alice / '
+                  'AuthorizedKeysFile ...`, a request for bob signed with '
+                  'alice\'s key succeeds as bob because bob\'s '
+                  'configuration names no file', fi.loc(fi.node),
+                  g.describe_path(w) if w else None)
+    rep.floor('C05.R18', 'per-user settings reloaded', n, 8)
+
+
 def run(idx, rep, tier):
     k = Kit(idx, rep)
     rep.assumptions += NOT_DECIDED
@@ -1383,6 +1419,7 @@ def run(idx, rep, tier):
     r13(k)
     r14(k)
     r16(k)
+    r18(k)
     # C05.R15: shared rule
     from .c06 import r1 as _c06r1
     rep.rule('C05.R15', 'receive gate (= rows of C06.R1): connection-protocol messages (80+) are rejected until authentication is complete, whatever the other auth flags say - a client that never requests ssh-userauth gets no channel, request or forward served')
